@@ -35,7 +35,8 @@ sympy expressions over symbols, exact rationals (float constants are converted e
 (uninterpreted sympy functions):
   * float ops fadd/fsub/fmul/fdiv/fneg are the real-number operations (rounding is NOT modelled; with
     `summary(rounding=True)` every rounded operation k multiplies its result by `(1 + _d<k>)`, which gives
-    the error polynomial used by C07; `path.nround` counts them in either mode);
+    the error polynomial used by C07; `path.nround` counts them in either mode and `path.fpvals` lists every
+    intermediate result `(rounding symbol, term)` so that a rule can bound intermediate magnitudes);
   * integers: add/sub/mul/shl-by-constant are ring operations (a term of type iN denotes a residue mod 2^N,
     so a polynomial identity over Z implies the identity mod 2^N); `udiv/sdiv` are atoms `udiv64(e,d)` ...,
     `urem/srem` are `e - d*udivN(e,d)` (the Div/Mod axiom); `lshr` by a constant is `udivN(e, 2^k)`;
@@ -1634,7 +1635,8 @@ def _is_int(x):
 
 
 class Path:
-    """one control-flow path: guard (list of literals), mem, nround, assumed (accepted narrowings), notes"""
+    """one control-flow path: guard (list of literals), mem, nround, assumed (accepted narrowings), notes,
+    fpvals (every intermediate result of a rounded floating-point operation, for magnitude analyses)"""
 
     def __init__(self):
         self.guard = []
@@ -1644,9 +1646,11 @@ class Path:
         self.notes = []
         self.ret = None
         self.aborted = False
+        self.fpvals = []      # (name of the rounding symbol | None, exact term) of every rounded fp operation, in order
 
     def fork(self):
         p = Path()
+        p.fpvals = list(self.fpvals)
         p.guard = list(self.guard)
         p.mem = self.mem
         p.nround = self.nround
@@ -2058,7 +2062,9 @@ class Interp:
         P.nround += 1
         if self.rounding:
             self.dcount += 1
+            P.fpvals.append(('_d%d' % self.dcount, t))
             return t * (1 + sym('_d%d' % self.dcount))
+        P.fpvals.append((None, t))
         return t
 
     def lanewise(self, f, *vs):
